@@ -161,10 +161,16 @@ class Spelling:
 
 
 class Line:
-    __slots__ = ("text", "id")
+    """A plain line; `inline` (optional) is an El rendered inside the line: pre + <open> + mid + <close> + post."""
+    __slots__ = ("text", "id", "inline", "pre", "mid", "post")
 
-    def __init__(self, text, id=0):
-        self.text, self.id = text, id
+    def __init__(self, text, id=0, inline=None, pre="", mid="", post=""):
+        self.text, self.id, self.inline, self.pre, self.mid, self.post = text, id, inline, pre, mid, post
+
+    def render(self, sp):
+        if self.inline is None:
+            return self.text
+        return self.pre + sp.open_tag(self.inline) + self.mid + sp.close_tag(self.inline) + self.post
 
 
 class DocGen:
@@ -172,7 +178,7 @@ class DocGen:
 
     def __init__(self, rng, depth=3, unit=None, p_el=0.5, p_ready=0.6, p_skip=0.12, p_unwrap=0.3, p_blank=0.2,
                  p_wsonly=0.3, allow_unwrap=True, kinds=("tl", "tl", "rm", "rm", "zz"), max_items=4, unique=False,
-                 times=None, names=None):
+                 times=None, names=None, p_inline=0.0):
         self.rng = rng
         self.depth = depth
         self.unit = unit or rng.choice(["  ", "    ", "\t"])
@@ -181,6 +187,7 @@ class DocGen:
         self.max_items, self.unique = max_items, unique
         self.counter = 0
         self.times, self.names = times, names
+        self.p_inline = p_inline
 
     def word(self):
         self.counter += 1
@@ -216,6 +223,17 @@ class DocGen:
                 items.append(e)
             elif r < self.p_el + self.p_blank:
                 items.append(Line(indent if rng.random() < self.p_wsonly else ""))
+            elif rng.random() < self.p_inline:
+                kind = rng.choice(self.kinds)
+                e = El(kind, rng.random() < self.p_ready, rng.random() < self.p_skip, False, indent="")
+                if self.times and kind == "tl":
+                    e.to = rng.choice(self.times)
+                if self.names and kind == "rm":
+                    e.name = rng.choice(self.names)
+                self.counter += 1
+                e.id = self.counter
+                items.append(Line(None, inline=e, pre=indent + rng.choice(["", "\t", "a ", self.word() + " "]),
+                                  mid=rng.choice(["", "b", " é ", self.word()]), post=rng.choice(["", " c", ";", " " + self.word()])))
             else:
                 extra = rng.choice(["", "", self.unit])
                 items.append(Line(indent + extra + self.word()))
@@ -228,7 +246,7 @@ class DocGen:
 def render_lines(items, sp, out):
     for it in items:
         if isinstance(it, Line):
-            out.append(it.text)
+            out.append(it.render(sp))
         else:
             out.append(it.indent + sp.open_tag(it))
             if it.unwrap:
@@ -255,6 +273,63 @@ def all_elements(items):
         if isinstance(it, El):
             yield it
             yield from all_elements(it.children)
+        elif it.inline is not None:
+            yield it.inline
+
+
+class LInfo:
+    """one rendered source line with what the reference knows about it"""
+    __slots__ = ("text", "removed", "blocks", "role", "el", "under_ready")
+
+    def __init__(self, text, removed, blocks, role, el, under_ready):
+        self.text, self.removed, self.blocks, self.role, self.el, self.under_ready = text, removed, blocks, role, el, under_ready
+
+
+def lead_ws(s):
+    return len(s) - len(s.lstrip(" \t"))
+
+
+def layout(items, sp, removed=False, blocks=(), out=None):
+    """Reference semantics of a block document: which lines disappear and which dedents apply.
+    blocks: tuple of (t, s) of the enclosing unwrapped ready blocks, outermost first (source columns)."""
+    out = [] if out is None else out
+    for it in items:
+        if isinstance(it, Line):
+            out.append(LInfo(it.render(sp), removed, blocks, "line", it.inline, removed))
+            continue
+        ready = it.effective_ready()
+        if ready and not it.unwrap:
+            out.append(LInfo(it.indent + sp.open_tag(it), True, blocks, "open", it, removed))
+            layout(it.children, sp, True, blocks, out)
+            out.append(LInfo(it.indent + sp.close_tag(it), True, blocks, "close", it, removed))
+        elif it.unwrap:
+            sub = []
+            layout(it.children, sp, removed, (), sub)   # placeholder to find the first inner line
+            first = sub[0].text if sub else it.indent + it.wrap_close
+            t = lead_ws(it.indent + "x")
+            s_ = max(0, lead_ws(first + "x") - t) if first.strip(" \t") != "" else max(0, len(first) - t)
+            inner_blocks = blocks + ((t, s_),) if ready else blocks
+            rm = removed or ready
+            out.append(LInfo(it.indent + sp.open_tag(it), rm, blocks, "open", it, removed))
+            out.append(LInfo(it.indent + it.wrap_open, rm, blocks, "wrap_open", it, removed))
+            layout(it.children, sp, removed, inner_blocks, out)
+            out.append(LInfo(it.indent + it.wrap_close, rm, blocks, "wrap_close", it, removed))
+            out.append(LInfo(it.indent + sp.close_tag(it), rm, blocks, "close", it, removed))
+        else:
+            out.append(LInfo(it.indent + sp.open_tag(it), removed, blocks, "open", it, removed))
+            layout(it.children, sp, removed, blocks, out)
+            out.append(LInfo(it.indent + sp.close_tag(it), removed, blocks, "close", it, removed))
+    return out
+
+
+def dedent(text, blocks):
+    """delete the indentation bytes whose column lies in the union of [t, t+s) over the blocks"""
+    w = lead_ws(text)
+    drop = set()
+    for (t, s_) in blocks:
+        for c in range(t, min(t + s_, w)):
+            drop.add(c)
+    return "".join(ch for i, ch in enumerate(text[:w]) if i not in drop) + text[w:]
 
 
 def g_ast(rng, **kw):
